@@ -216,7 +216,9 @@ fn materialise(dir: &Path, rows: &Value, blocks: &mut Blocks) {
                 std::fs::set_permissions(&full, std::fs::Permissions::from_mode(mode)).unwrap();
             }
             "sym" => {
-                std::os::unix::fs::symlink(r["tg"].as_str().unwrap_or("x"), &full).unwrap();
+                // "tg": the target; the form "x:<hex>" stands for raw bytes (targets that are not valid UTF-8)
+                let tg = target_bytes(r["tg"].as_str().unwrap_or("x"));
+                std::os::unix::fs::symlink(std::ffi::OsStr::from_bytes(&tg), &full).unwrap();
             }
             "wh" => {
                 let rc = unsafe { libc::mknod(cpath(&full).as_ptr(), libc::S_IFCHR, libc::makedev(0, 0)) };
@@ -247,6 +249,22 @@ fn root_opq(dir: &Path) -> String {
         }
     }
     String::new()
+}
+
+/// link targets cross the log byte-exactly: valid UTF-8 as text, anything else as "x:<hex>"
+fn target_text(b: &[u8]) -> String {
+    match std::str::from_utf8(b) {
+        Ok(s) if !s.starts_with("x:") => s.to_string(),
+        _ => format!("x:{}", b.iter().map(|c| format!("{:02x}", c)).collect::<String>()),
+    }
+}
+fn target_bytes(s: &str) -> Vec<u8> {
+    match s.strip_prefix("x:") {
+        Some(h) if h.len() % 2 == 0 && h.bytes().all(|c| c.is_ascii_hexdigit()) => {
+            (0..h.len() / 2).map(|i| u8::from_str_radix(&h[2 * i..2 * i + 2], 16).unwrap()).collect()
+        }
+        _ => s.as_bytes().to_vec(),
+    }
 }
 
 fn type_of(mode: u32, rdev: u64) -> &'static str {
@@ -313,7 +331,11 @@ fn host_rows(dir: &Path, blocks: &Blocks, with_content: bool) -> Vec<Value> {
                     }
                 }
                 "sym" => {
-                    row["tg"] = json!(std::fs::read_link(&full).map(|p| p.to_string_lossy().into_owned()).unwrap_or_default());
+                    let t = std::fs::read_link(&full).map(|p| p.as_os_str().as_bytes().to_vec()).unwrap_or_default();
+                    row["tg"] = json!(target_text(&t));
+                    if std::str::from_utf8(&t).is_err() {
+                        row["tgx"] = json!(true);
+                    }
                 }
                 _ => {}
             }
@@ -599,7 +621,12 @@ impl<'a> Walker<'a> {
                             self.xattrs(ent.inode, &mut row);
                         }
                         "sym" => match self.fs.readlink(&self.ctx, ent.inode) {
-                            Ok(v) => row["tg"] = json!(String::from_utf8_lossy(&v)),
+                            Ok(v) => {
+                                row["tg"] = json!(target_text(&v));
+                                if std::str::from_utf8(&v).is_err() {
+                                    row["tgx"] = json!(true);
+                                }
+                            }
                             Err(e) => row["rerr"] = json!(errno_of(&e)),
                         },
                         "dir" => self.xattrs(ent.inode, &mut row),
@@ -742,7 +769,7 @@ impl<'a> Exec<'a> {
             }
             "symlink" => {
                 let dir = self.resolve(&parent)?;
-                let tg = cstr(op["tg"].as_str().unwrap_or("x"));
+                let tg = CString::new(target_bytes(op["tg"].as_str().unwrap_or("x"))).unwrap();
                 let e = self.fs.symlink(&self.ctx, tg.as_c_str(), dir, cname.as_c_str()).map_err(e2n)?;
                 self.got(e);
                 Ok(())
@@ -1489,6 +1516,9 @@ impl Scn {
         if no_open() {
             ev["noopen"] = json!(true);
         }
+        if op["op"] == "symlink" && std::str::from_utf8(&target_bytes(op["tg"].as_str().unwrap_or(""))).is_err() {
+            ev["tgx"] = json!(true);
+        }
         ev["e"] = json!("Op");
         ev["seg"] = json!(self.seg);
         ev["st"] = json!(st);
@@ -1791,6 +1821,18 @@ fn stacks(seed: u64) -> Vec<Value> {
         }
         out.push(json!({"id": format!("modes{}", mi), "B": 16, "upper": true, "names": ["a","b","c"], "depth": 3,
                         "layers": [[], lower], "ops": ops}));
+    }
+    // symbolic links whose target is not valid UTF-8 (and one that is, multi-byte): every trigger that copies the
+    // link up (link; chmod / setxattr of a symlink are left free) - refusing is fine, changing the target is not
+    {
+        let lower = json!([{"p":["a"],"t":"sym","tg":"x:74ff80fe"}, {"p":["b"],"t":"sym","tg":"t\u{00e4}\u{20ac}"},
+                           {"p":["c"],"t":"dir","m":0o755}, {"p":["c","a"],"t":"sym","tg":"x:c3287a"}, {"p":["c","b"],"t":"sym","tg":"x:ff"}]);
+        out.push(json!({"id": "nonutf8", "B": 16, "upper": true, "names": ["a","b","c"], "depth": 3, "layers": [[], lower.clone()],
+                        "ops": [{"op":"link","src":["a"],"p":["c","c"]}, {"op":"link","src":["b"],"p":["a","a"]}, {"op":"link","src":["c","a"],"p":["a"]},
+                                {"op":"chmod","p":["c","b"],"m":0o777}, {"op":"setxattr","p":["c","b"],"n":"user.j","v":"1"},
+                                {"op":"unlink","p":["c","a"]}, {"op":"symlink","p":["c","a"],"tg":"x:80"}]}));
+        out.push(json!({"id": "nonutf8b", "B": 16, "upper": true, "names": ["a","b","c"], "depth": 3, "layers": [[], lower],
+                        "ops": [{"op":"link","src":["c","b"],"p":["b"]}, {"op":"link","src":["c","a"],"p":["c","c"]}, {"op":"link","src":["b"],"p":["c","c"]}]}));
     }
     // no_open negotiated (ZERO_MESSAGE_OPEN on the overlay and its layers): handle-less requests on lower-only (a),
     // upper-only (b) and shadowing (c) files; whatever they answer, the lower layers must not change
